@@ -49,6 +49,13 @@ type PoolH struct{}
 
 func (PoolH) Name() string { return "poolsim" }
 
+func (PoolH) Prepare(t *testing.T, c *hx.Case) {
+	pc := &PoolCfg{}
+	if json.Unmarshal(c.Cfg, pc) == nil {
+		ensureTemplate(&pc.Cfg, &hx.Outcome{})
+	}
+}
+
 var txKinds = []string{"valid", "valid", "valid", "child", "child", "child", "double-low", "double-high", "double-high", "orphan", "orphan-parent",
 	"badsig", "overspend", "immature", "dup", "dupinput", "nonfinal", "local", "trusted"}
 
@@ -123,6 +130,7 @@ type poolRun struct {
 	pc      *PoolCfg
 	m       *ledger.Miner
 	made    map[[32]byte]*ledger.Tx // every transaction the harness ever created
+	madeW   map[[32]byte]*ledger.Tx // the same, by wtxid (two versions of one txid may differ in their witnesses)
 	orphans []*ledger.Tx            // parents withheld so far
 	mined   map[[32]byte]bool       // txids on the active chain (maintained from the model tip)
 	tipNode *ledger.Node
@@ -162,8 +170,21 @@ func (p *poolRun) poolSpent(op ledger.OutPoint) bool {
 }
 
 // submit hands t to the pool through the given path.
+// txOf returns the harness's copy of a pooled transaction: the very version (same witness) the pool holds -
+// two versions of one txid may have been submitted, e.g. signed with different hash types.
+func (p *poolRun) txOf(t2s *txpool.OneTxToSend) *ledger.Tx {
+	if t := p.madeW[t2s.WTxID().Hash]; t != nil {
+		return t
+	}
+	return p.made[t2s.Hash.Hash]
+}
+
 func (p *poolRun) submit(t *ledger.Tx, path string) bool {
 	p.made[t.ID()] = t
+	if p.madeW == nil {
+		p.madeW = map[[32]byte]*ledger.Tx{}
+	}
+	p.madeW[t.WID()] = t
 	tx := goTx(t)
 	if tx == nil {
 		p.out.Probe("tx_unparsable", 1)
@@ -571,7 +592,7 @@ func (p *poolRun) doMine(o *PoolOp) {
 			if i >= o.N {
 				break
 			}
-			t := p.made[t2s.Hash.Hash]
+			t := p.txOf(t2s)
 			if t == nil {
 				p.viol("pool.unknown-tx", "%s: the listing contains %s which nobody submitted", when, hs(t2s.Hash.Hash))
 				return
@@ -691,7 +712,7 @@ func (p *poolRun) checkPool(when string) {
 			p.viol("pool.index-key", "%s: pool entry keyed %x holds transaction %s", when, k, hs(id))
 			return
 		}
-		lt := p.made[id]
+		lt := p.txOf(t2s)
 		if lt == nil {
 			p.viol("pool.unknown-tx", "%s: the pool holds %s which nobody submitted", when, hs(id))
 			return
@@ -780,7 +801,7 @@ func (p *poolRun) checkPool(when string) {
 			return
 		}
 		for i, t2s := range list {
-			lt := p.made[t2s.Hash.Hash]
+			lt := p.txOf(t2s)
 			if lt == nil {
 				continue
 			}
